@@ -23,6 +23,8 @@ NS = [
     # first one's, so it travels as prefix_id 0 ("same as the last prefix used")
     ("alpha", sstr(Atom("ns5.scheme", nosep=True), "/", Atom("ns5.path", nosep=True), "/alpha")),
     ("beta", sstr(Atom("ns5.scheme", nosep=True), "/", Atom("ns5.path", nosep=True), "/beta")),
+    # the namespace of the first statement's subject (declared last: the first IRI after the declarations shares its prefix)
+    ("subj", sstr(Atom("a.s.scheme", nosep=True), "/", Atom("a.s.path", nosep=True), "#")),
 ]
 
 
@@ -65,6 +67,7 @@ def check(chk: Check) -> None:
     chk.rule(rf, "re-serialising what was read reproduces the same namespace rows", floor=6)
     chk.trusted += ["rdflib Graph.namespaces()/bind model: binding order is preserved", "protobuf carries the abstract messages faithfully"]
     chk.undecided += ["interaction with evictions on concrete data (C05)", "rdflib's own default bindings (a fresh rdflib Graph pre-binds ~25 prefixes; the model starts empty)"]
+    chk.part("prebound-target", lambda: _prebound(chk))
     for integ in ("generic", "rdflib"):
         for physical in (1, 2, 3):
             arity = 3 if physical == 1 else 4
@@ -86,6 +89,7 @@ def check(chk: Check) -> None:
                     except PyRaise as pr:
                         out["on_error"] = (it.exc_class_name(pr.exc), str(pr.site))
                         return out
+                    out["reorder"] = [(e["what"], e["site"][2]) for e in it.events if e["kind"] == "reorder"]
                     ref = refdec.decode(it.schema, on)
                     out["ref_errors"] = ref.errors
                     out["on_rows"] = freeze(P.unsplit(it, [(x[1], x[2]) for x in ref.items if x[0] == "ns"]))
@@ -135,6 +139,8 @@ def check(chk: Check) -> None:
                         chk.ok(rs, inst, {"statements": len(o["on_stmts"])})
                     if via == "generator":
                         continue
+                    if o.get("reorder"):
+                        chk.fail(ro, inst + " | source order", f"{base}.serialize.namespace_declarations:reordered", f"the bindings pass through a reordering construct ({o['reorder'][0][0]} in {o['reorder'][0][1]}) between the source and the stream: declarations are not written in source order")
                     # identity on the wire
                     rows = o["on_rows"]
                     if tuple(rows) == tuple(want) * n_rep:
@@ -166,3 +172,42 @@ def check(chk: Check) -> None:
                             chk.ok(rf, inst, None)
                         else:
                             chk.fail(rf, inst, f"{base}:namespace-fixpoint", f"re-serialising the parsed bindings writes {o['again_rows']}, the original bindings were {uniq}")
+
+
+def _prebound(chk: Check) -> None:
+    """rdflib reader: a namespace the target already knows under another prefix must end up under the declared prefix."""
+    rule = "C14.PIPE.identity"
+    prog = chk.program
+    for physical in (1, 2):
+
+        def scenario(it: Interp) -> Any:
+            k = K.Kit(it)
+            arity = 3 if physical == 1 else 4
+            stmts = [tuple(C.base("a", arity))]
+            ns_iri = sstr(Atom("known.scheme", nosep=True), "/", Atom("known.path", nosep=True), "#")
+            frames = _write(k, "rdflib", physical, stmts, True, [("mine", ns_iri)], "store")
+
+            def pre(target: ExtObj) -> ExtObj:
+                R.method(it, R.ExtMethod(target, target.kind, "bind"), ["theirs", R.uri(ns_iri)], {})
+                return target
+
+            from ..values import ExtRef, FuncRef
+
+            g = pre(R.new_graph(it, R.uri(sstr(Atom("tgt", nosep=True))))) if physical == 1 else pre(R.new_dataset(it))
+            # factories handed to parse_jelly_to_graph return the caller's pre-bound object
+            fac = lambda i_, a_, k_: g  # noqa: E731
+            it.models._EXT["jstat.prebound_factory"] = fac
+            res = k.call(k.get(K.RP, "parse_jelly_to_graph"), k.input_stream(list(frames)), graph_factory=ExtRef("jstat.prebound_factory"), dataset_factory=ExtRef("jstat.prebound_factory"))
+            return [(p_, n_.attrs["value"]) for p_, n_ in res.attrs["ns"].items], ns_iri
+
+        inst = f"rdflib physical={physical}: target already binds the namespace under another prefix"
+        for it, out in explore(prog, scenario, max_paths=8, generic_strings=True):
+            chk.paths += 1
+            if out[0] != "ok":
+                chk.fail(rule, inst, "pyjelly.integrations.rdflib.parse.parse_jelly_to_graph:bind", f"raises {it.exc_class_name(out[1].exc)} at {out[1].site}")
+                continue
+            bound, ns_iri = out[1]
+            if ("mine", ns_iri) in bound and not any(p_ == "theirs" for p_, _n in bound):
+                chk.ok(rule, inst, {"bound": [p_ for p_, _n in bound]})
+            else:
+                chk.fail(rule, inst, "pyjelly.integrations.rdflib.parse.parse_jelly_to_graph:bind", f"the declared prefix 'mine' is not what the target ends up with for that namespace (bindings: {[p_ for p_, _n in bound]}): re-serialising writes a different declaration")
